@@ -9,7 +9,7 @@ Ev == TraceLog[l]
 
 \* what the listing may depend on: the variant the markers define and the catalogue itself -- never the bodies
 \* (sectors 2/3 are catalogue data on Watford and Opus discs, so what is written there belongs to the key)
-Key(x) == <<RVariant(x), x.start, x.total, x.hdfs, x.cat0,
+Key(x) == <<RVariant(x), x.start, x.flen0, x.total, x.hdfs, x.cat0,
             IF RVariant(x) \in {"OPUS", "WDFS"} THEN x.vols ELSE "-",
             IF RVariant(x) = "OPUS" THEN x.aa2 ELSE FALSE>>
 VariantOK(ev) == ev.variant = RVariant(ev.d)
